@@ -48,7 +48,9 @@ Clauses(o, ev, o2, p) ==
                  THEN (IF ev.now < p.idleStart + T(o) THEN <<F("closed-early", p.lastKind)>> ELSE <<>>)
                  ELSE IF ~p.idle /\ CleanHistory(o)
                          /\ \A a \in DOMAIN o.reqs : BusyReq(o, a) => App(o, a).done = ""
-                      THEN <<F("closed-while-busy", IF WsOpen(o) THEN "websocket" ELSE o.cfg.carrier)>>
+                      THEN <<F("closed-while-busy", IF WsOpen(o) THEN "websocket"
+                                                    ELSE IF ParkedPipeline(o) THEN "pipelined-request-pending"
+                                                    ELSE o.cfg.carrier)>>
                       ELSE <<>>
       [] ev.e = "quiescent" ->
             (IF /\ p.idle /\ o.closedAt < 0 /\ ~o.gone /\ ~o.reset /\ ~o.tfail /\ o.opened
